@@ -25,11 +25,16 @@ def _c08(prop, tier, replay_path):
         with open(replay_path) as fh:
             kind = json.load(fh).get("kind")
         if kind == "TestVerifNhsim":
+            with open(replay_path) as fh:
+                mode = json.load(fh).get("batch", {}).get("mode")
+            if mode == "member":
+                return nhfamily.check_c08_joiners(prop, tier, replay_path)
             return nhfamily.check_c08_compaction(prop, tier, replay_path)
         return rsmchecks.check_c08(prop, tier, replay_path)
     a = rsmchecks.check_c08(prop, tier, None)
     b = nhfamily.check_c08_compaction(prop, tier, None)
-    return 1 if 1 in (a, b) else max(a, b)
+    c = nhfamily.check_c08_joiners(prop, tier, None)
+    return 1 if 1 in (a, b, c) else max(a, b, c)
 
 
 CHECKS["C08"] = _c08
